@@ -81,3 +81,10 @@ claim("C09", "property-based testing: generated rule sets x six simulation modes
       "dt counters and ODE rules are checked row by row for firing time and step count, with and without reaction "
       "events, in SSA, safe, volume, delay and lineage single-cell simulation; deterministic mode for the repeated "
       "rules.", _TB, "DESIGN.md section 4 C09")
+
+claim("C14", "property-based testing: translation check of exported kinetic laws with an independent MathML-AST interpreter (Hypothesis)",
+      "3k / 40k generated models x deterministic / stochastic export: the written file is read with libsbml alone; "
+      "stoichiometries, identifier resolution and the value of every kinetic law at sampled states are compared with "
+      "the model's own rate objects.  The Hill-family kinetic laws are a recorded known finding (8 signatures); the "
+      "search continues behind them on mass action, general rates and stoichiometry.",
+      _TB + "; libsbml's reader", "DESIGN.md section 4 C14, section 6 item 10")
